@@ -258,3 +258,228 @@ def state_uncertain2(V):
     s2 = st.KSState(time_step=1, position=poly, orientation=0.0, velocity=0.0, steering_angle=0.0)
     n2 = s2.translate_rotate(tv, a)
     check_poly(V, n2.position, poly, t, a, "polygon region")
+
+
+# ------------------------------------------------------------------------------------------------
+# containers: trajectories, predictions, obstacles, network elements, scenario, planning problems
+# ------------------------------------------------------------------------------------------------
+from commonroad.common.common_lanelet import LineMarking, StopLine  # noqa: E402
+from commonroad.planning.goal import GoalRegion  # noqa: E402
+from commonroad.planning.planning_problem import PlanningProblem, PlanningProblemSet  # noqa: E402
+from commonroad.prediction.prediction import Occupancy, SetBasedPrediction, TrajectoryPrediction  # noqa: E402
+from commonroad.scenario.lanelet import Lanelet, LaneletNetwork  # noqa: E402
+from commonroad.scenario.obstacle import (DynamicObstacle, EnvironmentObstacle, ObstacleType, PhantomObstacle,  # noqa: E402
+                                          StaticObstacle)
+from commonroad.scenario.scenario import Scenario  # noqa: E402
+from commonroad.scenario.trajectory import Trajectory  # noqa: E402
+
+from harness import fixtures as fx  # noqa: E402
+
+FC = FST + ["commonroad/scenario/trajectory.py:Trajectory.translate_rotate", "commonroad/prediction/prediction.py:*.translate_rotate",
+            "commonroad/scenario/obstacle.py:*.translate_rotate", "commonroad/common/common_lanelet.py:StopLine.translate_rotate",
+            "commonroad/scenario/lanelet.py:Lanelet.translate_rotate", "commonroad/scenario/lanelet.py:LaneletNetwork.translate_rotate",
+            "commonroad/scenario/traffic_sign.py:TrafficSign.translate_rotate", "commonroad/scenario/traffic_light.py:TrafficLight.translate_rotate",
+            "commonroad/scenario/scenario.py:Scenario.translate_rotate", "commonroad/planning/goal.py:GoalRegion.translate_rotate",
+            "commonroad/planning/planning_problem.py:PlanningProblem.translate_rotate",
+            "commonroad/planning/planning_problem.py:PlanningProblemSet.translate_rotate"]
+
+
+def ks(t, p, th):
+    return st.KSState(time_step=t, position=np.array([p[0], p[1]]), orientation=th, velocity=1.0, steering_angle=0.0)
+
+
+@obligation("C05", "trajectory.ks", functions=FC, bounds="trajectory of 2 kinematic states, symbolic poses")
+def traj_ks(V):
+    tv, a, t = motion(V)
+    ps = [pt(V, f"p{i}") for i in range(2)]
+    ths = [V.real(f"theta{i}", -TWO_PI, TWO_PI) for i in range(2)]
+    tr_ = Trajectory(3, [ks(3 + i, ps[i], ths[i]) for i in range(2)])
+    tr_.translate_rotate(tv, a)
+    V.prove("trajectory keeps its states and time steps", V.And(len(tr_.state_list) == 2, tr_.initial_time_step == 3,
+                                                               [tr_.state_list[i].time_step == 3 + i for i in range(2)]))
+    for i in range(2):
+        V.prove(f"trajectory state {i}: position moved", same_point(V, tr_.state_list[i].position, expect(V, ps[i], t, a)))
+        V.prove(f"trajectory state {i}: orientation + a", angle_moved(V, tr_.state_list[i].orientation, ths[i], a))
+
+
+@obligation("C05", "trajectory.pm", functions=FC, bounds="trajectory of 2 point-mass states: velocity vectors rotate with it")
+def traj_pm(V):
+    tv, a, t = motion(V)
+    ps = [pt(V, f"p{i}") for i in range(2)]
+    vs = [(V.real(f"vx{i}", -50, 50), V.real(f"vy{i}", -50, 50)) for i in range(2)]
+    tr_ = Trajectory(0, [st.PMState(time_step=i, position=np.array([ps[i][0], ps[i][1]]), velocity=vs[i][0], velocity_y=vs[i][1])
+                         for i in range(2)])
+    tr_.translate_rotate(tv, a)
+    c, s = V.cos(a), V.sin(a)
+    for i in range(2):
+        n = tr_.state_list[i]
+        V.prove(f"pm trajectory state {i}: position moved", same_point(V, n.position, expect(V, ps[i], t, a)))
+        V.prove(f"pm trajectory state {i}: velocity vector rotated",
+                V.And(V.close(n.velocity, c * vs[i][0] - s * vs[i][1]), V.close(n.velocity_y, s * vs[i][0] + c * vs[i][1])))
+
+
+@obligation("C05", "prediction.setbased", functions=FC, bounds="occupancies with rectangle and circle shapes")
+def pred_set(V):
+    tv, a, t = motion(V)
+    r, rc = _rect(V)
+    c = pt(V, "c")
+    sp = SetBasedPrediction(1, [Occupancy(1, r), Occupancy(Interval(2, 4), Circle(2.0, np.array([c[0], c[1]])))])
+    sp.translate_rotate(tv, a)
+    V.prove("set-based: time steps kept", V.And(sp.occupancy_set[0].time_step == 1, sp.occupancy_set[1].time_step.start == 2,
+                                                sp.occupancy_set[1].time_step.end == 4))
+    check_rect(V, sp.occupancy_set[0].shape, r, rc, t, a, "set-based occupancy 0")
+    V.prove("set-based occupancy 1: centre moved", same_point(V, sp.occupancy_set[1].shape.center, expect(V, c, t, a)))
+
+
+def _dyn(V, n="d"):
+    p0, p1 = pt(V, n + "p0"), pt(V, n + "p1")
+    th0, th1 = V.real(n + "theta0", -TWO_PI, TWO_PI), V.real(n + "theta1", -TWO_PI, TWO_PI)
+    shape = Rectangle(4.0, 2.0)
+    init = st.InitialState(time_step=0, position=np.array([p0[0], p0[1]]), orientation=th0, velocity=1.0, acceleration=0.0,
+                           yaw_rate=0.0, slip_angle=0.0)
+    o = DynamicObstacle(31, ObstacleType.CAR, shape, init, TrajectoryPrediction(Trajectory(1, [ks(1, p1, th1)]), shape))
+    return o, (p0, th0), (p1, th1)
+
+
+def check_dyn(V, o, s0, s1, t, a, tag="dynamic"):
+    V.prove(f"{tag}: initial position moved", same_point(V, o.initial_state.position, expect(V, s0[0], t, a)))
+    V.prove(f"{tag}: initial orientation + a", angle_moved(V, o.initial_state.orientation, s0[1], a))
+    n1 = o.prediction.trajectory.state_list[0]
+    V.prove(f"{tag}: predicted position moved", same_point(V, n1.position, expect(V, s1[0], t, a)))
+    V.prove(f"{tag}: predicted orientation + a", angle_moved(V, n1.orientation, s1[1], a))
+    occ0, occ1 = o.occupancy_at_time(0), o.occupancy_at_time(1)
+    V.prove(f"{tag}: occupancy at the initial step moved", V.And(occ0 is not None, same_point(V, occ0.shape.center, expect(V, s0[0], t, a))
+                                                                  if occ0 is not None else False))
+    V.prove(f"{tag}: predicted occupancy moved", V.And(occ1 is not None, same_point(V, occ1.shape.center, expect(V, s1[0], t, a))
+                                                        if occ1 is not None else False))
+
+
+@obligation("C05", "obstacle.dynamic", functions=FC, bounds="dynamic obstacle: initial state + 1 predicted state, rectangle shape")
+def obs_dyn(V):
+    tv, a, t = motion(V)
+    o, s0, s1 = _dyn(V)
+    o.translate_rotate(tv, a)
+    check_dyn(V, o, s0, s1, t, a)
+
+
+@obligation("C05", "obstacle.static-phantom-environment", functions=FC,
+            bounds="static obstacle (state + occupancy), phantom obstacle (stored occupancy), environment obstacle (shape)")
+def obs_other(V):
+    tv, a, t = motion(V)
+    p = pt(V, "sp")
+    th = V.real("stheta", -TWO_PI, TWO_PI)
+    so = StaticObstacle(30, ObstacleType.PARKED_VEHICLE, Rectangle(4.0, 2.0), fx.init_state(0, p[0], p[1], th))
+    so.translate_rotate(tv, a)
+    V.prove("static: initial position moved", same_point(V, so.initial_state.position, expect(V, p, t, a)))
+    V.prove("static: orientation + a", angle_moved(V, so.initial_state.orientation, th, a))
+    occ = so.occupancy_at_time(5)
+    V.prove("static: occupancy moved", V.And(same_point(V, occ.shape.center, expect(V, p, t, a)), angle_moved(V, occ.shape.orientation, th, a)))
+    c = pt(V, "pc")
+    ph = PhantomObstacle(32, SetBasedPrediction(0, [Occupancy(0, Circle(1.5, np.array([c[0], c[1]])))]))
+    ph.translate_rotate(tv, a)
+    V.prove("phantom: occupancy moved", same_point(V, ph.occupancy_at_time(0).shape.center, expect(V, c, t, a)))
+    e = pt(V, "ec")
+    env = EnvironmentObstacle(33, ObstacleType.BUILDING, Circle(3.0, np.array([e[0], e[1]])))
+    sc = Scenario(0.1)
+    sc.add_objects([env])
+    sc.translate_rotate(tv, a)
+    V.prove("environment obstacle: shape moved with the scenario",
+            same_point(V, sc.obstacles[0].occupancy_at_time(0).shape.center, expect(V, e, t, a)))
+
+
+LANELET_L = [[0.0, 2.0], [5.0, 2.5], [10.0, 4.0]]
+LANELET_C = [[0.0, 0.5], [5.0, 1.0], [10.0, 2.5]]
+LANELET_R = [[0.0, -1.0], [5.0, -0.5], [10.0, 1.0]]
+
+
+def _lanelet(V, lid, off):
+    mk = lambda pts_: np.array([[x + off[0], y + off[1]] for x, y in pts_])
+    sl = StopLine(np.array([9.0 + off[0], 1.0 + off[1]]), np.array([9.0 + off[0], 4.0 + off[1]]), LineMarking.SOLID)
+    return Lanelet(mk(LANELET_L), mk(LANELET_C), mk(LANELET_R), lid, stop_line=sl)
+
+
+def check_lanelet(V, la, off, t, a, tag):
+    for nm, got, base in (("left", la.left_vertices, LANELET_L), ("centre", la.center_vertices, LANELET_C), ("right", la.right_vertices, LANELET_R)):
+        V.prove(f"{tag}: {nm} boundary moved", V.And([same_point(V, got[i], expect(V, (base[i][0] + off[0], base[i][1] + off[1]), t, a))
+                                                       for i in range(3)]))
+    V.prove(f"{tag}: stop line moved", V.And(same_point(V, la.stop_line.start, expect(V, (9.0 + off[0], 1.0 + off[1]), t, a)),
+                                              same_point(V, la.stop_line.end, expect(V, (9.0 + off[0], 4.0 + off[1]), t, a))))
+    ring = [(x + off[0], y + off[1]) for x, y in LANELET_R + LANELET_L[::-1]]
+    pv = la.polygon.vertices
+    V.prove(f"{tag}: polygon rebuilt from the moved boundaries",
+            V.And(len(pv) == 7, [V.Or([same_point(V, pv[i], expect(V, q, t, a)) for q in ring]) for i in range(min(len(pv), 7))]))
+
+
+@obligation("C05", "lanelet", functions=FC, bounds="curved 3-vertex lanelet with stop line at a symbolic offset")
+def lanelet(V):
+    tv, a, t = motion(V)
+    off = (V.real("offx", -B, B), V.real("offy", -B, B))
+    la = _lanelet(V, 1, off)
+    la.translate_rotate(tv, a)
+    check_lanelet(V, la, off, t, a, "lanelet")
+
+
+@obligation("C05", "sign-light", functions=FC, bounds="traffic sign and traffic light at symbolic positions")
+def sign_light(V):
+    tv, a, t = motion(V)
+    ps, pl = pt(V, "sign"), pt(V, "light")
+    s, l = fx.sign(10, pos=ps), fx.light(11, pos=pl)
+    s.translate_rotate(tv, a)
+    l.translate_rotate(tv, a)
+    V.prove("traffic sign position moved", same_point(V, s.position, expect(V, ps, t, a)))
+    V.prove("traffic light position moved", same_point(V, l.position, expect(V, pl, t, a)))
+
+
+@obligation("C05", "scenario.mix", functions=FC, max_paths={"quick": 3000, "thorough": 20000},
+            bounds="scenario with a lanelet, sign, light and a static, dynamic, phantom and environment obstacle: all components "
+                   "move together and the call never fails")
+def scenario_mix(V):
+    tv, a, t = motion(V)
+    sc = Scenario(0.1)
+    la = _lanelet(V, 1, (0.0, 0.0))
+    ps, pl = pt(V, "sign"), pt(V, "light")
+    net = LaneletNetwork()
+    net.add_lanelet(la)
+    net.add_traffic_sign(fx.sign(10, pos=ps), set())
+    net.add_traffic_light(fx.light(11, pos=pl), set())
+    sc.add_objects(net)
+    o, s0, s1 = _dyn(V)
+    p = pt(V, "sp")
+    so = StaticObstacle(30, ObstacleType.PARKED_VEHICLE, Rectangle(4.0, 2.0), fx.init_state(0, p[0], p[1], 0.3))
+    c = pt(V, "pc")
+    ph = PhantomObstacle(32, SetBasedPrediction(0, [Occupancy(0, Circle(1.5, np.array([c[0], c[1]])))]))
+    e = pt(V, "ec")
+    env = EnvironmentObstacle(33, ObstacleType.BUILDING, Circle(3.0, np.array([e[0], e[1]])))
+    sc.add_objects([o, so, ph, env])
+    sc.translate_rotate(tv, a)
+    check_lanelet(V, sc.lanelet_network.find_lanelet_by_id(1), (0.0, 0.0), t, a, "scenario.lanelet")
+    V.prove("scenario: sign and light moved", V.And(same_point(V, sc.lanelet_network.find_traffic_sign_by_id(10).position, expect(V, ps, t, a)),
+                                                     same_point(V, sc.lanelet_network.find_traffic_light_by_id(11).position, expect(V, pl, t, a))))
+    check_dyn(V, sc.obstacle_by_id(31), s0, s1, t, a, "scenario.dynamic")
+    V.prove("scenario: static obstacle moved", same_point(V, sc.obstacle_by_id(30).initial_state.position, expect(V, p, t, a)))
+    V.prove("scenario: phantom obstacle moved", same_point(V, sc.obstacle_by_id(32).occupancy_at_time(0).shape.center, expect(V, c, t, a)))
+    V.prove("scenario: environment obstacle moved", same_point(V, sc.obstacle_by_id(33).occupancy_at_time(0).shape.center, expect(V, e, t, a)))
+
+
+@obligation("C05", "planning-problem", functions=FC, bounds="planning problem set with one problem: initial state, goal with rectangle and "
+                                                              "angle interval")
+def planning(V):
+    tv, a, t = motion(V)
+    p = pt(V, "ip")
+    th = V.real("itheta", -TWO_PI, TWO_PI)
+    r, rc = _rect(V, "g")
+    lo, hi = V.real("o_lo", -TWO_PI, TWO_PI), V.real("o_hi", -TWO_PI, TWO_PI)
+    V.assume(V.And(lo <= hi, hi - lo < TWO_PI))
+    goal = GoalRegion([st.CustomState(time_step=Interval(0, 10), position=r, orientation=AngleInterval(lo, hi))])
+    pp = PlanningProblem(1, fx.init_state(0, p[0], p[1], th, 2.0), goal)
+    pps = PlanningProblemSet([pp])
+    pps.translate_rotate(tv, a)
+    q = pps.find_planning_problem_by_id(1)
+    V.prove("planning problem: initial position moved", same_point(V, q.initial_state.position, expect(V, p, t, a)))
+    V.prove("planning problem: initial orientation + a", angle_moved(V, q.initial_state.orientation, th, a))
+    g = q.goal.state_list[0]
+    check_rect(V, g.position, r, rc, t, a, "goal region")
+    V.prove("goal: angle interval moved, length kept", V.And(
+        V.close(g.orientation.end - g.orientation.start, hi - lo, 1e-9),
+        V.exists_int(-2, 2, lambda k: V.close(g.orientation.start, lo + a + TWO_PI * k, 1e-9))))
+    V.prove("goal: time interval kept", V.And(g.time_step.start == 0, g.time_step.end == 10))
